@@ -92,7 +92,7 @@ impl Alphanumeric for String {
     fn _split(&self, sep: Self, max_split: Option<usize>) -> List<Self> {
         let result: Vec<&str> = max_split.map_or_else(
             || str::split(self, &sep).collect(),
-            |split| self.splitn(split, &sep).collect());
+            |split| self.splitn(split.max(1), &sep).collect());
         List(result.into_iter().map(ToString::to_string).collect())
     }
 
